@@ -27,3 +27,13 @@ Print Assumptions C08_run_idempotent.
 Theorem C08_run_terminates : forall S obj neighbors pick k, stmt_run_terminates S obj neighbors pick k.
 Proof. exact run_terminates. Qed.
 Print Assumptions C08_run_terminates.
+
+(** the generic loop instantiated with the schedule model (LSInst.v): every run whose pick honours its contract is a
+    path of strictly improving moves through the enumerated neighbours, in the documented priority order *)
+From RS Require Import Network Schedule Swaps PipelineSched CoverStmts LSInst.
+Theorem C08_run_on_schedules_is_improving_path :
+  forall nw pick, pick_ok schedule (ls_obj) pick ->
+  forall fuel s r steps fin,
+    run schedule ls_obj (ls_neighbors nw) pick fuel s = (r, steps, fin) -> improving_path nw s r.
+Proof. exact run_is_improving_path. Qed.
+Print Assumptions C08_run_on_schedules_is_improving_path.
